@@ -30,7 +30,7 @@ func init() {
 	register(&c04{base{
 		id:          "C04",
 		level:       lvlExploration,
-		rule:        "each case: a seeded PAR1 set (1..40 files of unequal sizes incl. empty files next to non-empty ones and files >16 KiB, Unicode incl. non-BMP names, 1..99 parity volumes) created with the real par1.Create, then (a) the untouched set must verify clean incl. the full parity check, and (b) damage patterns are applied: for sets with <=4 files and <=4 volumes EVERY subset of damaged data files (deleted or corrupted) x EVERY subset of deleted volumes (exhaustive mode), otherwise seeded subsets. Verify's counts must equal the truth by construction; Repair must restore every file whenever unusable data <= usable volumes unless the forced sub-matrix ((i)^(v-1) over GF(2^8)/0x11D, lowest available volumes x missing files) is singular by reference elimination, in which case an error is required. A key is (files, volumes, damaged set, lost volumes, damage kind). Further kinds: files of hundreds of KiB with unaligned lengths; 255 files + 1 volume. Base names and directories may contain '%'; names up to 200 characters; Create's postcondition (index and volumes 1..n under their PAR 1.0 names) is checked. One data name in seven is named like the set's own files (<index base>.part1.rar, .p01.txt, .par.bak ...).. Case upper-ext (SET.PAR: refusal or a working round trip); a sixth of the generated files repeat another file's bytes. After every successful Repair with lost volumes the state it left is verified again (usable volumes = volume files with their original bytes).",
+		rule:        "each case: a seeded PAR1 set (1..40 files of unequal sizes incl. empty files next to non-empty ones and files >16 KiB, Unicode incl. non-BMP names, 1..99 parity volumes) created with the real par1.Create, then (a) the untouched set must verify clean incl. the full parity check, and (b) damage patterns are applied: for sets with <=4 files and <=4 volumes EVERY subset of damaged data files (deleted or corrupted) x EVERY subset of deleted volumes (exhaustive mode), otherwise seeded subsets. Verify's counts must equal the truth by construction; Repair must restore every file whenever unusable data <= usable volumes unless the forced sub-matrix ((i)^(v-1) over GF(2^8)/0x11D, lowest available volumes x missing files) is singular by reference elimination, in which case an error is required. A key is (files, volumes, damaged set, lost volumes, damage kind). Further kinds: files of hundreds of KiB with unaligned lengths; 255 files + 1 volume. Base names and directories may contain '%'; names up to 200 characters; Create's postcondition (index and volumes 1..n under their PAR 1.0 names) is checked. One data name in seven is named like the set's own files (<index base>.part1.rar, .p01.txt, .par.bak ...).. Case upper-ext (SET.PAR: refusal or a working round trip); a sixth of the generated files repeat another file's bytes. After every successful Repair with lost volumes the state it left is verified again (usable volumes = volume files with their original bytes). Kind twin-sets: two sets with the same contents under other names of equal length, verified and repaired alternately in one process.",
 		assumptions: append([]string{"klauspost/reedsolomon uses the lowest-numbered available parity rows (checked: singular outcomes must coincide with the reference)"}, commonAssumptions...),
 		opts:        core.WorkerOpts{CrashIsViolation: true, WallSeconds: 2400, Exhaustive: true, Extra: map[string]interface{}{"exhaustive_subspace": "sets of 1..4 files x 1..4 volumes: every subset of damaged data files x every subset of deleted volumes"}},
 	}})
